@@ -42,3 +42,26 @@ Theorem C05_no_split : forall td start stop p,
   32 <= snd p /\ forall j, ~ (30 * j + 7 <= snd p /\ snd p < 30 * j + 31).
 Proof. exact no_split. Qed.
 Print Assumptions C05_no_split.
+
+(** segment level: counting / printing byte by byte with the source's masks finds exactly the constellations all of
+    whose members are among the numbers of the set bits of the segment (every byte contributes its own, none spans
+    two bytes) - for every byte array and every base *)
+From PS Require Import Proofs.TupletsP Proofs.TupletsTopP Model.CrossOff Model.Pmath Model.Config.
+Theorem C05_segment_tuplets_spec : forall idx, (1 <= idx <= 5)%nat -> forall bytes low,
+  low mod 30 = 0 -> Forall (fun j => j < 256) bytes ->
+  segment_tuplets (nth idx kBitmasks []) low bytes = tuplets_of_set idx (seg_numbers low bytes).
+Proof. exact segment_tuplets_spec. Qed.
+Print Assumptions C05_segment_tuplets_spec.
+
+(** top level over the model kernel (Properties_C04): the k-tuplets counted / printed for [start, stop], start >= 7, over
+    the byte array that represents what the kernel delivers are exactly the constellations of primes of the interval.
+    (The byte array is represented by its set of set bits; that the AND of the cleared masks yields these bytes is part
+    of the cross-off unit correspondence, not of this theorem.) *)
+Theorem C05_ktuplets_model_kernel : forall l1 maxKB idx start stop,
+  16 <= maxKB -> maxKB <= 8192 -> (1 <= idx <= 5)%nat -> 7 <= start -> start <= stop -> stop <= MAX64 ->
+  let low := start - byteRemainder start in
+  let size := N.to_nat ((stop - low) / 30 + 1) in
+  segment_tuplets (nth idx kBitmasks []) low (bytes_of_set (erat_model l1 maxKB start stop) low size)
+  = tuplets_of_set idx (primes_between start stop).
+Proof. exact ktuplets_model. Qed.
+Print Assumptions C05_ktuplets_model_kernel.
